@@ -431,12 +431,12 @@ def run(ctx):
         run_exhaustive(ctx, maxlen=6, cut_all_upto=5, three_upto=3)
         run_raw(ctx, 5)
         run_random(ctx, 300)
-        run_maxsize(ctx, 300)
+        pass  # the size limit (MessageTooBig) is modelled and judged by C09 (reader after the D13 repair)
     else:
         run_exhaustive(ctx, maxlen=8, cut_all_upto=6, three_upto=5)
         run_raw(ctx, 6)
         run_random(ctx, 6000)
-        run_maxsize(ctx, 3000)
+        pass  # see C09
     ctx.note('max_size is None in every judged case; the MessageTooBig path is compared model<->code only (property C09 judges it)')
     ctx.note('a sender part that starts with "." in the middle of a line gets that dot doubled by DataSender._process_part '
              '(e.g. parts (b"a", b".b") arrive as b"a..b\\r\\n"); such splits are outside the property (splits at line boundaries) and are only compared model<->code')
